@@ -177,7 +177,21 @@ impl<'tcx> Dumper<'tcx> {
                     || p == "std::ops::Range";
                 for (vi, v) in adt.variants().iter_enumerated() {
                     let discr = if adt.is_enum() {
-                        J::Int(adt.discriminant_for_variant(tcx, vi).val as i128)
+                        let d = adt.discriminant_for_variant(tcx, vi);
+                        let v = match d.ty.kind() {
+                            ty::Int(ity) => {
+                                let bits = ity.bit_width().unwrap_or(64) as u32;
+                                if bits >= 128 {
+                                    d.val as i128
+                                } else {
+                                    let m = 1u128 << bits;
+                                    let x = d.val & (m - 1);
+                                    if x >= (m >> 1) { (x as i128) - (m as i128) } else { x as i128 }
+                                }
+                            }
+                            _ => d.val as i128,
+                        };
+                        J::Int(v)
                     } else {
                         J::Int(0)
                     };
